@@ -262,6 +262,24 @@ def _escapes(stmt):
 
 # --------------------------------------------------------------------------- inlining policy
 
+def clone_with(e, target, repl):
+    """copy of e with the node `target` replaced by `repl` (identity-based)"""
+    if e is target:
+        return repl
+    if not isinstance(e, ast.AST):
+        return e
+    new = type(e)()
+    for fld, val in ast.iter_fields(e):
+        if isinstance(val, list):
+            setattr(new, fld, [clone_with(v, target, repl) for v in val])
+        else:
+            setattr(new, fld, clone_with(val, target, repl))
+    for a in ("lineno", "col_offset", "end_lineno", "end_col_offset"):
+        if hasattr(e, a):
+            setattr(new, a, getattr(e, a))
+    return new
+
+
 class Inliner:
     """decides which calls are expanded; holds the program for callee lookup"""
 
@@ -359,12 +377,50 @@ def enum_paths(body, cap=20000, prune=True, prog=None, func=None, inline=True):
             return None       # expression-level inlining handles it during substitution
         return c, f
 
+    def nested_helper_call(s, ctx):
+        """first call (evaluation order) to an inlinable helper with control flow that sits inside the expression of s"""
+        if inl is None or len(ctx) > inl.max_depth:
+            return None
+        top = getattr(s, "value", None)
+        if top is None:
+            return None
+        found = []
+
+        def visit(e):
+            if found or isinstance(e, (ast.Lambda, ast.ListComp, ast.SetComp, ast.DictComp, ast.GeneratorExp)):
+                return
+            if isinstance(e, ast.BoolOp):
+                visit(e.values[0])           # later operands are evaluated conditionally
+                return
+            if isinstance(e, ast.IfExp):
+                visit(e.test)
+                return
+            for c in ast.iter_child_nodes(e):
+                visit(c)
+                if found:
+                    return
+            if isinstance(e, ast.Call) and e is not top:
+                f = inl.callee(ctx[-1], e)
+                if f is not None and not any(f is g for g in ctx) and not any(isinstance(a, ast.Starred) for a in e.args) \
+                        and (Inliner.simple_expr(f) is None or any(isinstance(n, ast.IfExp) for n in ast.walk(f.node))):
+                    found.append(e)
+        visit(top)
+        return found[0] if found else None
+
     def run(stmts, i, prefix, facts, k, ctx):
         if len(done) > cap:
             raise PathCap()
         if i >= len(stmts):
             return k(prefix, facts, "fall")
         s = stmts[i]
+        if inl is not None and isinstance(s, (ast.Assign, ast.AugAssign, ast.AnnAssign, ast.Expr, ast.Return)):
+            h = nested_helper_call(s, ctx)
+            if h is not None:
+                nm = "$h%d_%d_%d" % (getattr(h, "lineno", 0), getattr(h, "col_offset", 0), len(ctx))
+                asg = ast.copy_location(ast.Assign(targets=[ast.Name(id=nm, ctx=ast.Store())], value=h), s)
+                s2 = clone_with(s, h, ast.copy_location(ast.Name(id=nm, ctx=ast.Load()), h))
+                s2._orig = getattr(s, "_orig", s)
+                return run([asg, s2] + list(stmts[i + 1:]), 0, prefix, facts, k, ctx)
 
         def nxt(p, f, how="fall"):
             return run(stmts, i + 1, p, f, k, ctx) if how == "fall" else k(p, f, how)
